@@ -6,7 +6,12 @@ From InvokeVerif Require Export Model.ConfigModel Spec.C03Spec.
 
 Definition obs3 := result (tree * tree * list (option string)).
 
-Record case := mk { c_fs : fsys; c_init : init_args; c_ops : list op; c_obs : obs3 }.
+Definition snap3 := (tree * tree * list (option string))%type.
+
+(** [c_mids]: what was observed after each call that returned (view, environment
+    level, suffixes read), in order. *)
+Record case := mk { c_fs : fsys; c_init : init_args; c_ops : list op; c_obs : obs3;
+                    c_mids : list snap3 }.
 
 Fixpoint first_err (tr : list (outcome * dict)) : option err :=
   match tr with
@@ -41,10 +46,45 @@ Definition obs_eqb (a b : obs3) : bool :=
   | _, _ => false
   end.
 
-Definition corr (c : case) : bool := obs_eqb (model_out c) (c_obs c).
+(** The model's state after each call that returned. *)
+Fixpoint run_states (fs : fsys) (c : cfg) (ops : list op) : list cfg :=
+  match ops with
+  | [] => []
+  | o :: rest =>
+      let '(c', out) := step fs c o in
+      match out with
+      | OErr _ => []
+      | _ => c' :: run_states fs c' rest
+      end
+  end.
+
+Definition snap_of (c : cfg) : snap3 :=
+  (Node (c_cache c), c_env c, [c_sys_sfx c; c_user_sfx c; c_proj_sfx c]).
+
+Definition snap_eqb (a b : snap3) : bool := obs_eqb (Ok a) (Ok b).
+
+Definition model_mids (c : case) : list snap3 :=
+  match start (c_fs c) (c_init c) with
+  | Err _ => []
+  | Ok c0 => map snap_of (run_states (c_fs c) c0 (c_ops c))
+  end.
+
+Definition corr (c : case) : bool :=
+  obs_eqb (model_out c) (c_obs c) && list_eqb snap_eqb (model_mids c) (c_mids c).
+
+(** Every prefix of the script that is itself a script of the property (ends
+    merged) is judged on what was observed right after it. *)
+Fixpoint spec_mids (fs : fsys) (i : init_args) (done rest : list op) (mids : list snap3) : bool :=
+  match rest, mids with
+  | o :: rest', m :: mids' =>
+      let done' := done ++ [o] in
+      spec_ok fs i done' "INVOKE_" (Ok m) && spec_mids fs i done' rest' mids'
+  | _, _ => true
+  end.
 
 Definition spec (c : case) : bool :=
-  spec_ok (c_fs c) (c_init c) (c_ops c) "INVOKE_" (c_obs c).
+  spec_ok (c_fs c) (c_init c) (c_ops c) "INVOKE_" (c_obs c) &&
+  spec_mids (c_fs c) (c_init c) [] (c_ops c) (c_mids c).
 
 (** Inside the quantifier of the property (type-consistent levels, a load script). *)
 Definition in_scope (c : case) : bool :=
